@@ -315,8 +315,8 @@ fn run(rep: &Reporter, prm: &Params) {
 
 fn main() {
     let rep = Reporter::from_args("C19");
-    rep.rule("runs of the two ACO templates and of harness-assembled generate/evaluate/update loops over instance sizes 2..10, three distance families (incl. distances spanning 1e-6..1e6), ants 1..8, alpha/beta in {0,1,2,5}, evaporation in {0,.1,.5,.99,1}, default pheromones in {1e-3,.5,1,10}, max-min bounds, up to 200 iterations (reaching very small and saturated trails), seeds; observed at the step-observer hook: after every generation 1+ants tours, each a permutation of all cities starting at 0, the first greedy w.r.t. the matrix; around every pheromone update the whole matrix before/after: expected = evaporate every trail, then deposit decay/length (ant system: every sampled tour; max-min: 1/length on the best sampled tour) symmetrically on exactly the consecutive-city edges, clamp to the bounds for max-min; all off-diagonal trails finite, >= 0 and, for max-min, within [min,max]; tour lengths in the expectation are recomputed from the distance matrix (variants with a screening evaluation stage under another identifier before the real one); between two updates of a colony its trails are bit-identical (variants with a second colony run to completion inside a scope in every pass; records per scope depth). distinct_nontrivial = distinct parameter cells");
-    rep.assume("evaporation in [0,1], positive symmetric distances, ants >= 1, min < max pheromones; ties between equally short best tours make the max-min expectation ambiguous and are then only checked for bounds/symmetry");
+    rep.rule("runs of the two ACO templates and of harness-assembled generate/evaluate/update loops over instance sizes 2..10, three distance families (incl. distances spanning 1e-6..1e6), ants 0..8, alpha/beta in {0,1,2,5}, evaporation in {0,.1,.5,.99,1}, default pheromones in {1e-3,.5,1,10}, max-min bounds, up to 200 iterations (reaching very small and saturated trails), seeds; observed at the step-observer hook: after every generation 1+ants tours, each a permutation of all cities starting at 0, the first greedy w.r.t. the matrix; around every pheromone update the whole matrix before/after: expected = evaporate every trail, then deposit decay/length (ant system: every sampled tour; max-min: 1/length on the best sampled tour) symmetrically on exactly the consecutive-city edges, clamp to the bounds for max-min; all off-diagonal trails finite, >= 0 and, for max-min, within [min,max]; tour lengths in the expectation are recomputed from the distance matrix (variants with a screening evaluation stage under another identifier before the real one); between two updates of a colony its trails are bit-identical (variants with a second colony run to completion inside a scope in every pass; records per scope depth). distinct_nontrivial = distinct parameter cells");
+    rep.assume("evaporation in [0,1], positive symmetric distances, at least one ant for max-min, min < max pheromones; ties between equally short best tours make the max-min expectation ambiguous and are then only checked for bounds/symmetry");
     let mut rng = SplitMix64::new(rep.seed).fork(0xC19);
     let mut cells = Vec::new();
     for k in 0..rep.tier.pick(5_000, 4_000_000) {
@@ -325,7 +325,9 @@ fn main() {
             n: 2 + rng.usize(9),
             kind: *rng.pick(&[DistKind::Random, DistKind::Clustered, DistKind::VeryUnequal]),
             inst_seed: rng.below(1000),
-            ants: 1 + rng.usize(8),
+            // (no sampled tours at all - only the greedy one - is a valid request too: the update then only evaporates)
+            // (only for the ant system: the max-min update rewards the best sampled tour and has nothing to reward without one)
+            ants: if bounds.is_none() && rng.chance(0.15) { 0 } else { 1 + rng.usize(8) },
             alpha: *rng.pick(&[0.0, 1.0, 2.0, 5.0]),
             beta: *rng.pick(&[0.0, 1.0, 2.0, 5.0]),
             default_pheromones: *rng.pick(&[1e-3, 0.5, 1.0, 10.0]),
